@@ -95,7 +95,7 @@ def rfcIntTail : List Nat → Nat → Except RErr (Nat × List Nat)
     else
       match rfcIntTail p (k + 1) with
       | .error e => .error e
-      | .ok (v, r) => .ok ((b - 128) * 128 ^ k + v, r)
+      | .ok (v, r) => .ok ((b % 128) * 128 ^ k + v, r)
 
 def rfcInt (n : Nat) : List Nat → Except RErr (Nat × List Nat)
   | [] => .error .truncated
